@@ -256,7 +256,10 @@ class TimeoutFactory(Contract):
     def setup(self, it, env):
         st = it.st
         self.made = []
-        self.fn = st.reg_fun(OracleV("function", is_async=True))
+        # any callable - a plain coroutine function or an object, possibly one of the library's own wrapper objects
+        self.fn = st.fresh_val("function")
+        st.assume(z3.Or(V.is_fun(self.fn), z3.And(V.is_ref(self.fn), V.addr(self.fn) >= 0, V.addr(self.fn) < 1_000_000)))
+        self.h0 = st.snapshot_heap()
         self.tmo = st.fresh_val("timeout")
         env.vars.update(timeout=self.tmo)
         return None, CallArgs([self.fn])
@@ -267,6 +270,10 @@ class TimeoutFactory(Contract):
                     z3.BoolVal(ok) if not ok else
                     z3.And(z3.BoolVal(len(self.made[0].pos) == 1) if len(self.made[0].pos) != 1 else self.made[0].pos[0] == self.fn,
                            (self.made[0].kw.get("timeout") if "timeout" in self.made[0].kw else V.VNone) == self.tmo))
+        st = it.st
+        it.st.check("P6:wrapping-leaves-the-wrapped-callable-untouched(other-users-of-it-keep-their-own-deadline)",
+                    z3.BoolVal(all(v.eq(self.h0.get(k, st.heap0.get(k))) for k, v in st.heap.items()
+                                   if not k.startswith("$") and k in ("_timeout", "_function"))))
 
     def on_raise(self, it, exc):
         it.st.check("P6:building-the-timeout-wrapper-never-raises", z3.BoolVal(False))
